@@ -156,6 +156,27 @@ theorem empty_new_dir_before_fix_witness :
     start 0 (hasData witnessStore) = .ok (upgraded ⟨1, 10, 2⟩ 7) ∧
     start 0 (hasData (startCut 0 witnessStore (.in810 (.inPlan 3 .none)))) = .ok (upgraded ⟨1, 10, 2⟩ 7) := by decide
 
+/-- The data check never answers "no data" on a node that holds a snapshot in ANY format, in any
+state interrupted starts can leave — so -auto-restore never loads its file over such a node … -/
+theorem data_check_sees_old_format_v8 (e : D) {l8 : List (S8 D)} {m : Meta} {d : D} (h : C8 l8 m d)
+    (evs : List (Event D)) :
+    hasDataAnswer (evs.foldl (startEvent e) { old8 := some l8 }) = true :=
+  hasDataAnswer_lift (fun _ hs => hasDataAnswer_inv h hs)
+    (foldl_event_lift (coreOK8 e h) evs (Or.inl (.A none false)))
+
+theorem data_check_sees_old_format_v7 {e : D} {l7 : List (S7 D)} {m : Meta} {d : D} (h : C7 e l7 m d)
+    (evs : List (Event D)) :
+    hasDataAnswer (evs.foldl (startEvent e) { old7 := some l7 }) = true :=
+  hasDataAnswer_lift (fun _ hs => hasDataAnswer_inv7 h hs)
+    (foldl_event_lift (coreOK7 h) evs (Or.inl (.P none)))
+
+/-- … which it did before the fix: only wsnapshots was looked at, so a node that had not been
+upgraded yet (and whose raft log held no command entry) was taken for an empty one and its data
+replaced by the auto-restore file on the first start with the new release. -/
+theorem data_check_before_fix_witness :
+    hasDataAnswerOld witnessStore = false ∧ hasDataAnswerOld (hasData witnessStore) = false ∧
+    hasDataAnswer witnessStore = true ∧ hasDataAnswer (hasData witnessStore) = true := by decide
+
 /-! ### tie to the source (regenerated on every run) -/
 
 def opKind : Op8 → String
